@@ -1,6 +1,10 @@
 import TinsModel.Address.LemmasMask
 import TinsModel.Address.LemmasHwGrammar
 import TinsModel.Address.LemmasV4Grammar
+import TinsModel.Address.LemmasV6Grammar
+import TinsModel.Address.LemmasV6Canon
+import TinsModel.Address.LemmasV6Run
+import TinsModel.Address.LemmasV6Roundtrip
 /- Property C16 — theorems (statements only here; helper lemmas live in TinsModel/Address/Lemmas*.lean).
 
    Reading of the statements: an IPv4 address is the model's `ip_addr_` (a number `< 2^32`, `V4.wf`); an IPv6 /
@@ -372,6 +376,91 @@ theorem ipv4_text_roundtrip (a : Nat) (ha : V4.wf a) : V4.parse (V4.fmt a) = som
 theorem ipv4_accept_iff (s : List Nat) : V4.parse s = (Spec.parse4 s).map Spec.val :=
   v4_parse_eq_spec s
 
+
+/-! ## IPv6 text: `IPv6Address(text)` = `inet_pton(AF_INET6)`, `to_string()` / `operator<<` = `inet_ntop(AF_INET6)`
+
+  libtins has no code of its own here (src/ipv6_address.cpp: `init`, `to_string`), so the statements are about the Lean
+  reference model of the two glibc routines (`V6.pton6`, `V6.ntop6`, statement for statement after resolv/inet_pton.c and
+  resolv/inet_ntop.c) — compared with the libc the harness is linked against on every run — and about the RFC-level
+  specification `Spec.parse6` (RFC 4291 §2.2) / `Spec.fmt6` (RFC 5952 §4, §5), which is what the run-time oracle evaluates. -/
+
+/-- **pton6_is_spec**: the `inet_pton6` state machine accepts exactly the RFC 4291 §2.2 text forms and yields the bytes
+    they denote — for every byte string (hex groups of 1–4 digits, one "::", dotted-quad tail; single leading/trailing
+    colon, 9 groups, "::" with nothing to stand for, 5 digits, empty groups, foreign characters and zone ids rejected). -/
+theorem pton6_is_spec (s : List Nat) : V6.pton6 s = Spec.parse6 s := pton6_eq_spec s
+
+/-- `IPv6Address(const std::string&)` / `IPv6Address(const char*)` under the reference model -/
+theorem ipv6_accept_iff (s : List Nat) : V6.parse s = Spec.parse6 s := pton6_eq_spec s
+
+/-- **ntop6_canonical**: for every address, the `inet_ntop6` text is the RFC 5952 canonical text `Spec.fmt6`
+    (lower case, no leading zeros, the longest run of at least two zero groups compressed, the first one on ties; the
+    two embedded-IPv4 forms as `Spec.mixedPrefix` states them), it is at most 39 characters long, hence the size check
+    against `INET6_ADDRSTRLEN` = 46 never fires and `to_string()` never throws. -/
+theorem ntop6_canonical (a : Buf) (h : WFB 16 a) :
+    V6.ntop6 a = Spec.fmt6 a ∧ (V6.ntop6 a).length ≤ 39 ∧ V6.toString a = some (V6.ntop6 a) :=
+  ⟨ntop6_eq_spec a h, ntop6_length_le a h, toString_some a h⟩
+
+/-- what "canonical" says about the compressed run (RFC 5952 §4.2.2, §4.2.3), read off the specification: the run
+    replaced by "::" has at least two groups, all of them zero; no run of zero groups is longer; none of the same length
+    starts earlier; and when nothing is compressed no two adjacent groups are zero. -/
+theorem compressed_run_rfc5952 (a : Buf) (h : WFB 16 a) :
+    match Spec.bestRun (Spec.groups6 a) with
+    | none => ∀ i, Spec.zeroRun (Spec.groups6 a) i 2 = false
+    | some (i, l) =>
+      2 ≤ l ∧ Spec.zeroRun (Spec.groups6 a) i l = true ∧
+      ∀ i' l', Spec.zeroRun (Spec.groups6 a) i' l' = true → l' ≤ l ∧ (l' = l → i ≤ i') := by
+  obtain ⟨b0, b1, b2, b3, b4, b5, b6, b7, b8, b9, b10, b11, b12, b13, b14, b15, rfl⟩ := list16 a h.1
+  exact bestRun_rfc5952 _ rfl
+
+/-- what "canonical" says about one group (RFC 5952 §4.1 no leading zeros, §4.3 lower case), read off the
+    specification: one to four characters from `0-9a-f`, a leading '0' only in the text "0", and the text denotes the
+    group's value -/
+theorem group_text_rfc5952 (v : Nat) (h : v < 65536) :
+    1 ≤ (Spec.hexNumeral v).length ∧ (Spec.hexNumeral v).length ≤ 4 ∧
+    (∀ c ∈ Spec.hexNumeral v, (48 ≤ c ∧ c ≤ 57) ∨ (97 ≤ c ∧ c ≤ 102)) ∧
+    ((Spec.hexNumeral v).head? = some 48 → Spec.hexNumeral v = [48]) ∧ Spec.groupVal (Spec.hexNumeral v) = v :=
+  hexNumeral_form v h
+
+example : Spec.hexNumeral 0x0a0 = [97, 48] ∧ Spec.hexNumeral 0 = [48] := by decide
+
+/-- a buffer that is exactly as long as the longest text (39) is one byte short: the terminating NUL is counted -/
+example : V6.toStringSized 39 (List.replicate 16 255) = none ∧
+    (V6.toStringSized 40 (List.replicate 16 255)).isSome = true := by decide
+
+/-- **ntop6_roundtrip**: parsing the printed text gives the address back — all 2^128 addresses (structural proof over
+    the eight groups and the position / length of the compressed run) -/
+theorem ntop6_roundtrip (a : Buf) (h : WFB 16 a) : V6.pton6 (V6.ntop6 a) = some a := V6RT.pton6_ntop6 a h
+
+/-- the same at the level of the specification: the RFC 5952 text of an address denotes that address under RFC 4291 -/
+theorem spec6_roundtrip (a : Buf) (h : WFB 16 a) : Spec.parse6 (Spec.fmt6 a) = some a := by
+  rw [← ntop6_eq_spec a h, ← pton6_eq_spec]; exact V6RT.pton6_ntop6 a h
+
+/-- different addresses print differently -/
+theorem ntop6_injective (a b : Buf) (ha : WFB 16 a) (hb : WFB 16 b) (h : V6.ntop6 a = V6.ntop6 b) : a = b := by
+  have h1 := V6RT.pton6_ntop6 a ha
+  rw [h, V6RT.pton6_ntop6 b hb] at h1
+  exact (Option.some.inj h1).symm
+
+/-- **pton6_injective_on_canonical**: two canonical texts that denote the same address are the same text -/
+theorem pton6_injective_on_canonical (a b : Buf) (ha : WFB 16 a) (hb : WFB 16 b)
+    (h : V6.pton6 (V6.ntop6 a) = V6.pton6 (V6.ntop6 b)) : V6.ntop6 a = V6.ntop6 b := by
+  rw [V6RT.pton6_ntop6 a ha, V6RT.pton6_ntop6 b hb] at h
+  rw [Option.some.inj h]
+
+/-- **ipv6_text_roundtrip**: `IPv6Address(a.to_string()) == a` for every address, *if* libc's `inet_pton` / `inet_ntop`
+    behave as the reference model (`hp`, `hn` — the hypothesis the correspondence tests on every run) -/
+theorem ipv6_text_roundtrip (libcPton : List Nat → Option Buf) (libcNtop : Nat → Buf → Option (List Nat))
+    (hp : ∀ s, libcPton s = V6.pton6 s) (hn : ∀ size a, libcNtop size a = V6.toStringSized size a)
+    (a : Buf) (h : WFB 16 a) : (libcNtop 46 a).bind libcPton = some a := by
+  rw [hn]
+  have : V6.toStringSized 46 a = some (V6.ntop6 a) := toString_some a h
+  rw [this, Option.bind_some, hp]
+  exact V6RT.pton6_ntop6 a h
+
+/-- the model's own instance of that statement -/
+theorem ipv6_text_roundtrip_model (a : Buf) (h : WFB 16 a) : (V6.toString a).bind V6.parse = some a :=
+  ipv6_text_roundtrip V6.pton6 V6.toStringSized (fun _ => rfl) (fun _ _ => rfl) a h
+
 set_option maxRecDepth 100000 in
 /-- each octet is printed as its plain decimal numeral -/
 theorem ipv4_octet_form : ∀ n, n < 256 → V4.decOctet n = Spec.decimal n := by decide
@@ -395,5 +484,15 @@ example : Spec.parse4 [49, 46, 50, 46, 51, 46, 52] = some [1, 2, 3, 4] := by dec
 example : Spec.parse4 [49, 46, 50, 46, 51, 46, 48, 52] = none := by decide
 example : Spec.parseHw 6 [48, 48, 58, 58, 50, 50] = none := by decide
 example : Spec.parseHw 6 [48, 58, 97, 98, 58, 70] = some [0, 0xab, 0xf, 0, 0, 0] := by decide
+
+-- IPv6 text: a v4-mapped address, ties between runs (first wins), a single zero group is not compressed
+example : WFB 16 [0, 0, 0, 0, 0, 0, 0, 0, 0, 0, 255, 255, 1, 2, 3, 4] := ⟨rfl, by decide⟩
+example : V6.ntop6 [0, 0, 0, 0, 0, 0, 0, 0, 0, 0, 255, 255, 1, 2, 3, 4] = "::ffff:1.2.3.4".toList.map Char.toNat := by decide
+example : V6.ntop6 [0, 1, 0, 0, 0, 0, 0, 2, 0, 0, 0, 0, 0, 3, 0, 4] = "1::2:0:0:3:4".toList.map Char.toNat := by decide
+example : V6.ntop6 [0, 1, 0, 0, 0, 2, 0, 3, 0, 4, 0, 5, 0, 6, 0, 7] = "1:0:2:3:4:5:6:7".toList.map Char.toNat := by decide
+example : Spec.parse6 ("1:2:3:4:5:6:7::".toList.map Char.toNat) = some [0, 1, 0, 2, 0, 3, 0, 4, 0, 5, 0, 6, 0, 7, 0, 0] := by decide
+example : Spec.parse6 ("1:2:3:4:5:6:7:8::".toList.map Char.toNat) = none := by decide
+example : Spec.parse6 ("fe80::1%eth0".toList.map Char.toNat) = none := by decide
+example : Spec.parse6 ("::FFFF:1.2.3.4".toList.map Char.toNat) = some [0, 0, 0, 0, 0, 0, 0, 0, 0, 0, 255, 255, 1, 2, 3, 4] := by decide
 
 end Tins.Props.C16
